@@ -98,9 +98,15 @@ pub const FAULTS: &[Fault] = &[
     Fault { id: "tuple-named-mismatch", class: "tuple/named mismatch without member names", level: Level::Type, hosts: &["tuple-hint"], add: &[], edit: Some(|it| { if let Body::Struct { fields, .. } = &mut it.body { fields[1].attrs.clear(); } }), salient: &[&["field name"], &["member", "name"]], parse_stage: false },
     // untyped nested parent
     Fault { id: "untyped-nested-parent", class: "untyped nested parent", level: Level::Member, hosts: &["named", "parent"], add: &["parent([parent(zq)] zp)"], edit: None, salient: &[&["zp", "type"]], parse_stage: false },
+    Fault { id: "untyped-nested-parent-outer", class: "untyped nested parent", level: Level::Member, hosts: &["named", "parent"], add: &["parent([parent([parent(zq)] zr: Zr)] zp)"], edit: None, salient: &[&["zp", "type"]], parse_stage: false },
     // repeat conflicts
     Fault { id: "trait-repeat-unterminated", class: "conflicting repeat parameters", level: Level::Type, hosts: ALL, add: &["from_owned(V1| repeat(), vars(k: {1}))", "from_owned(V2| repeat(), vars(k: {2}))"], edit: None, salient: &[&["repeat"]], parse_stage: true },
     Fault { id: "trait-repeat-overrides-vars", class: "conflicting repeat parameters", level: Level::Type, hosts: ALL, add: &["from_ref(V1| repeat(), vars(k: {1}))", "from_ref(V2| vars(k: {2}))"], edit: None, salient: &[&["vars"], &["skip_repeat"]], parse_stage: true },
+    // the repeated template carries everything (`repeat()`) but has no update / quick return / default case of its own: a
+    // follower that sets one is still overridden (seed C15-05)
+    Fault { id: "trait-repeat-overrides-update", class: "conflicting repeat parameters", level: Level::Type, hosts: STRUCTS, add: &["from_ref(V1| repeat(), vars(k: {1}))", "from_ref(V2| ..Default::default())"], edit: None, salient: &[&["update"], &["skip_repeat"]], parse_stage: true },
+    Fault { id: "trait-repeat-overrides-return", class: "conflicting repeat parameters", level: Level::Type, hosts: STRUCTS, add: &["from_ref(V1| repeat(), vars(k: {1}))", "from_ref(V2| return Default::default())"], edit: None, salient: &[&["return"], &["skip_repeat"]], parse_stage: true },
+    Fault { id: "trait-repeat-overrides-default-case", class: "conflicting repeat parameters", level: Level::Type, hosts: &["enum"], add: &["from_ref(V1| repeat(), vars(k: {1}))", "from_ref(V2| _ => todo!())"], edit: None, salient: &[&["default case"], &["skip_repeat"]], parse_stage: true },
     Fault { id: "trait-param-twice", class: "conflicting repeat parameters", level: Level::Type, hosts: ALL, add: &["owned_into(V1| vars(k: {1}), vars(j: {2}))"], edit: None, salient: &[&["vars"], &["already"]], parse_stage: true },
     Fault { id: "member-repeat-unterminated", class: "conflicting repeat parameters", level: Level::Member, hosts: &["named", "flat", "enum"], add: &["o2o:repeat()"], edit: Some(|it| {
         // a repeat on member 0 that is never stopped before the injected one
